@@ -19,7 +19,7 @@ type Profile struct {
 	CloseAll, NoGet                                         bool
 	FlushExtra, EndExtra                                    []string // templates with %F = file id
 	KeyOnlyReads                                            bool     // C19: bracket key-only ops with rmark/kreads
-	Iter, SetRoot                                           int
+	Iter, SetRoot, SnapRevert, Write                        int
 	MemOnly                                                 int // percent of histories on a memory-only store
 	MaxColls                                                int
 	BigVals                                                 bool
@@ -329,6 +329,21 @@ func (g *Gen) history() []string {
 			if s == nil || s.mem {
 				return
 			}
+			if p.Write > 0 {
+				// bytes written by Collection.Write lie beyond the last root record and the next
+				// store opened on the file writes over them: snapshots still reading them go first
+				var ids []int
+				for id, t := range g.stores {
+					if t.ro && t.fid == s.fid && !t.mem {
+						ids = append(ids, id)
+					}
+				}
+				sort.Ints(ids)
+				for _, id := range ids {
+					g.emit("close %d", id)
+					delete(g.stores, id)
+				}
+			}
 			if p.Drop > 0 && r.Intn(100) < p.Drop {
 				g.emit("drop %d", s.sid)
 			} else {
@@ -505,6 +520,32 @@ func (g *Gen) history() []string {
 			n := g.pickName(s, true)
 			k := g.key()
 			g.emit("setroot %d %s %s %d %d", s.sid, hx([]byte(n)), hx(k), g.prio(n, k), r.Intn(4))
+		}},
+		{p.SnapRevert, func() {
+			// FlushRevert THROUGH a snapshot: the snapshot goes back one flush, the file and the
+			// original are untouched
+			var ids []int
+			for id, t := range g.stores {
+				if t.ro && !t.mem {
+					ids = append(ids, id)
+				}
+			}
+			if len(ids) == 0 {
+				return
+			}
+			sort.Ints(ids)
+			id := ids[r.Intn(len(ids))]
+			g.emit("revert %d", id)
+			g.emit("names %d", id)
+			g.emit("dump %d", id)
+			g.stores[id].names = map[string]bool{}
+		}},
+		{p.Write, func() {
+			s := g.pickStore(true)
+			if s == nil || s.mem {
+				return
+			}
+			g.emit("write %d %s", s.sid, hx([]byte(g.pickName(s, true))))
 		}},
 		{p.Dump, func() { g.emit("dump %d", g.pickStore(false).sid) }},
 		{p.HeapCheck, func() { g.emit("heapcheck") }},
